@@ -196,7 +196,7 @@ BIT_METHODS = {
     "insert": "mut_or", "remove": "mut_diff", "toggle": "mut_top", "set": "mut_set",
     "bitor_assign": "mut_or", "bitand_assign": "mut_and", "sub_assign": "mut_diff", "bitxor_assign": "mut_top",
     "as_raw_mode": "id", "from_raw_mode": "id", "from_bits": "top", "bits_mut": "top",
-    "contains": "t_contains", "intersects": "t_intersects", "is_empty": "t_empty",
+    "contains": "t_contains", "intersects": "t_intersects", "is_empty": "t_empty", "eq": "t_eq", "ne": "t_ne",
     "mode": "id_mode", "from_mode": "id",
 }
 
@@ -327,6 +327,12 @@ class Bits:
     def val_op(self, st, op):
         if op.kind == "const":
             v = op.int_value()
+            if v is None and (op.const.get("ty") or "").startswith("&") and is_flag_ty(op.const.get("ty")) and op.const.get("bytes") is not None:
+                # reference to a promoted flag constant
+                from .common import decode_bytes
+                raw = decode_bytes(op.const["bytes"])
+                if 0 < len(raw) <= 8:
+                    v = int.from_bytes(raw, "little")
             return Val.const(v) if v is not None else TOP
         if op.place is None:
             return TOP
@@ -515,6 +521,30 @@ class Bits:
                 val = TOP
                 if bconst is not None and akey is not None:
                     fact = ("cond", ("iszero", akey, bconst, False))
+            elif kind in ("t_eq", "t_ne"):
+                val = TOP
+                # (x & C) == C   -> contains(C) ;  (x & C) == 0 -> iszero(C)
+                for (oa, ob_val) in ((args[0], b), (args[1] if len(args) > 1 else None, a)):
+                    if oa is None or ob_val is None or oa.place is None:
+                        continue
+                    f = None
+                    loc = None
+                    if oa.place.is_local:
+                        loc = oa.place.local
+                    tg = self.target(oa)
+                    for cand in ([loc] if loc is not None else []) + ([tg.local] if tg is not None and tg.is_local else []):
+                        f = f or st.get(("and", cand))
+                    if f is None:
+                        continue
+                    cst = None
+                    if len(ob_val.alts) == 1 and (ob_val.alts[0].s | ob_val.alts[0].c) == M64:
+                        cst = ob_val.alts[0].s
+                    if cst is None:
+                        continue
+                    if cst == f[2] and cst != 0:
+                        fact = ("cond", ("contains", f[1], f[2], kind == "t_eq"))
+                    elif cst == 0:
+                        fact = ("cond", ("iszero", f[1], f[2], kind == "t_eq"))
             elif kind == "t_empty":
                 val = TOP
                 if args[0].place is not None:
